@@ -33,7 +33,7 @@ def check(ctx):
     m = sc.build(ctx, "R09")
     ctx.run(r09_1, m)
     ctx.run(r09_2, m)
-    ctx.run(r09_3, m)
+    ctx.run(r09_3, m, _independent=True)  # the tag values are decided from the key extraction alone
     ctx.run(c08.check_provenance)  # bo:i is the BO of the anchor node: same rule as the sort key
     # sn:Z is the SN tag value as the graph loader stored it: the loader's TAG:TYPE:VALUE split is shared with C07
     from . import gfa_common as gc
@@ -47,6 +47,7 @@ def check(ctx):
 
     ctx.run_shared(_sh.path_tokenisers)
     ctx.run_shared(_sh.graph_loader)
+    ctx.run_shared(_sh.gaf_reader)  # sort opens its input by the same content sniffer as the GAF reader
     ctx.run_shared(_sh.cli_layer, "gaftools.cli.sort")
 
 
